@@ -151,11 +151,23 @@ def family(t, sd):
     # names a compilation produces from indexed variables: x_{i-1} at i = 0 is x_-1, with several indexes x_-1_-1, p_-1_3
     styles = gen.NAME_STYLES + [{'x': 'x_-1', 'y': 'y_0_-2', 'z': 'z_-1_-1', 'p': 'p_-1_3', 'q': 'q_2_-1_-5'}]
     ms = [dict(m, model=gen.rename_vars(m['model'], styles[i % 4])) if i % 4 else m for i, m in enumerate(ms)]
+    import copy as _copy
+    for i, m in enumerate(list(ms)):
+        if i % 9 == 4:
+            # the same model with its first <= / >= row made strict
+            mm = _copy.deepcopy(m['model'])
+            for c in mm['cons']:
+                if c.get('c') in ('<=', '>='):
+                    c['c'] = c['c'][0]
+                    ms.append(dict(m, model=mm))
+                    break
     items += [{'model': m['model']} for m in ms]
     items += [{'model': m['model']} for m in gen.diverging_family()]
     big = [1e-9, 1e9, -1e-9, 123456.789, 0.1, 1 / 3, -2.5e-7, 7e-5, 1e-5, -1e5]
     ls = gen.l_seeded(92, 1500 if t == 'quick' else 20000, named=True, offsets=True, satisfy=True, probe=('coef', 'rhs', 'obj', 'off'))
     ls += gen.l_seeded(93, 1000 if t == 'quick' else 10000, named=True, offsets=True, coefs=[0, 1, -1, 2.5] + big, rhss=[0, 1, -1] + big)
+    # strict rows: the language has < and >, and a compiled linear model keeps them (the solvers refuse them, the text must not lose them)
+    ls += gen.l_seeded(94, 600 if t == 'quick' else 6000, named=True, offsets=True, strict=True)
     items += [{'lm': s} for s in ls]
     import corpus
     items += [{'src': pr['src']} for pr in corpus.programs()]
